@@ -40,10 +40,11 @@ template <class G> struct Operand<G, 'o'> {
   ~Operand() { if (scope().echo) for (int i = 0; i < G::RepSize; ++i) scope().echoed.push_back((double)g.coeffs()(i)); }
   const G& get() const { return g; }
   G& mut() { return g; }
+  const typename G::Scalar* raw() const { return g.coeffs().data(); }
 };
 template <class G> struct Operand<G, 'm'> {
   // view over a caller buffer placed at an odd (unaligned) offset inside a guarded array
-  typename G::Scalar buf[G::RepSize + 9];
+  alignas(16) typename G::Scalar buf[G::RepSize + 9];   // view at buf+3: never 16-byte aligned
   Eigen::Map<G> v;
   explicit Operand(const double* p) : v(buf + 3) {
     for (auto& x : buf) x = (HX_SC)kGuard;
@@ -55,9 +56,10 @@ template <class G> struct Operand<G, 'm'> {
   }
   const Eigen::Map<G>& get() const { return v; }
   Eigen::Map<G>& mut() { return v; }
+  const typename G::Scalar* raw() const { return buf + 3; }
 };
 template <class G> struct Operand<G, 'c'> {
-  typename G::Scalar buf[G::RepSize + 9];
+  alignas(16) typename G::Scalar buf[G::RepSize + 9];   // view at buf+3: never 16-byte aligned
   Eigen::Map<const G> v;
   explicit Operand(const double* p) : v(buf + 3) {
     for (auto& x : buf) x = (HX_SC)kGuard;
@@ -76,9 +78,11 @@ template <class T> struct TOperand<T, 'o'> {
   explicit TOperand(const double* p) { for (int i = 0; i < T::DoF; ++i) t.coeffs()(i) = (HX_SC)p[i]; }
   ~TOperand() { if (scope().echo) for (int i = 0; i < T::DoF; ++i) scope().echoed.push_back((double)t.coeffs()(i)); }
   const T& get() const { return t; }
+  T& mut() { return t; }
+  const typename T::Scalar* raw() const { return t.coeffs().data(); }
 };
 template <class T> struct TOperand<T, 'm'> {
-  typename T::Scalar buf[T::DoF + 9];
+  alignas(16) typename T::Scalar buf[T::DoF + 9];
   Eigen::Map<T> v;
   explicit TOperand(const double* p) : v(buf + 3) {
     for (auto& x : buf) x = (HX_SC)kGuard;
@@ -89,9 +93,11 @@ template <class T> struct TOperand<T, 'm'> {
     if (scope().echo) for (int i = 0; i < T::DoF; ++i) scope().echoed.push_back((double)buf[3 + i]);
   }
   const Eigen::Map<T>& get() const { return v; }
+  Eigen::Map<T>& mut() { return v; }
+  const typename T::Scalar* raw() const { return buf + 3; }
 };
 template <class T> struct TOperand<T, 'c'> {
-  typename T::Scalar buf[T::DoF + 9];
+  alignas(16) typename T::Scalar buf[T::DoF + 9];
   Eigen::Map<const T> v;
   explicit TOperand(const double* p) : v(buf + 3) {
     for (auto& x : buf) x = (HX_SC)kGuard;
@@ -131,10 +137,10 @@ bool runAlias(const Req& r, Resp& R) {
     Operand<G, S> x(a.data()); TOperand<T, S> t(a.data() + Rep);
     if (op == "plus") { G g = x.get().plus(t.get(), oa, ob); pushM(out, g.coeffs()); fin(); return true; }
     if (op == "op+") { G g = x.get() + t.get(); pushM(out, g.coeffs()); return true; }
-    if (op == "t+X") { G g = t.get() + G(x.get()); pushM(out, g.coeffs()); return true; }
-    if (op == "t.plus") { G g = t.get().plus(G(x.get()), oa, ob); pushM(out, g.coeffs()); fin(); return true; }
-    if (op == "t.lplus") { G g = t.get().lplus(G(x.get()), oa, ob); pushM(out, g.coeffs()); fin(); return true; }
-    if (op == "t.rplus") { G g = t.get().rplus(G(x.get()), oa, ob); pushM(out, g.coeffs()); fin(); return true; }
+    if (op == "t+X") { G g = t.get() + x.get(); pushM(out, g.coeffs()); return true; }
+    if (op == "t.plus") { G g = t.get().plus(x.get(), oa, ob); pushM(out, g.coeffs()); fin(); return true; }
+    if (op == "t.lplus") { G g = t.get().lplus(x.get(), oa, ob); pushM(out, g.coeffs()); fin(); return true; }
+    if (op == "t.rplus") { G g = t.get().rplus(x.get(), oa, ob); pushM(out, g.coeffs()); fin(); return true; }
     if (op == "f_rplus") { G g = manif::rplus(x.get(), t.get(), oa, ob); pushM(out, g.coeffs()); fin(); return true; }
     if (op == "f_lplus") { G g = manif::lplus(x.get(), t.get(), oa, ob); pushM(out, g.coeffs()); fin(); return true; }
     if (op == "f_plus") { G g = manif::plus(x.get(), t.get(), oa, ob); pushM(out, g.coeffs()); fin(); return true; }
@@ -272,6 +278,37 @@ typename std::enable_if<S != 'c', bool>::type runPurity(const Req& r, Resp& R) {
     if (op == "self_between" && a.size() == (size_t)(2 * Rep)) { Operand<G, S> x(a.data()); Operand<G, 'o'> y(a.data() + Rep); x.mut() = x.get().between(y.get()); pushM(out, x.get().coeffs()); return true; }
     if (op == "self_rplus" && a.size() == (size_t)(Rep + DoF)) { Operand<G, S> x(a.data()); TOperand<T, 'o'> t(a.data() + Rep); x.mut() = x.get() + t.get(); pushM(out, x.get().coeffs()); return true; }
     if (op == "self_lplus" && a.size() == (size_t)(Rep + DoF)) { Operand<G, S> x(a.data()); TOperand<T, 'o'> t(a.data() + Rep); x.mut() = x.get().lplus(t.get()); pushM(out, x.get().coeffs()); return true; }
+    return false;
+  }
+  if (op.compare(0, 7, "assign_") == 0) {
+    // the assignment family between two objects of the same storage kind.  Reported: the
+    // destination's underlying storage after the assignment; then, after a further write through
+    // the destination (setIdentity / setZero), the destination's and the source's storage —
+    // a view must copy coefficients into ITS buffer and keep viewing it.
+    auto rawG = [&](const typename G::Scalar* p) { for (int i = 0; i < Rep; ++i) out.push_back((double)p[i]); };
+    auto rawT = [&](const typename G::Scalar* p) { for (int i = 0; i < DoF; ++i) out.push_back((double)p[i]); };
+    const bool tangent_form = op.compare(0, 8, "assign_t") == 0;
+    if (!tangent_form && a.size() == (size_t)(2 * Rep)) {
+      Operand<G, S> x(a.data()), y(a.data() + Rep);
+      if (op == "assign_copy") x.mut() = y.get();
+      else if (op == "assign_move") x.mut() = std::move(y.mut());
+      else if (op == "assign_owning") { G o(y.get()); x.mut() = o; }
+      else if (op == "assign_owning_move") { G o(y.get()); x.mut() = std::move(o); }
+      else if (op == "assign_coeffs") x.mut() = y.get().coeffs();
+      else return false;
+      rawG(x.raw()); x.mut().setIdentity(); rawG(x.raw()); rawG(y.raw());
+      return true;
+    }
+    if (tangent_form && a.size() == (size_t)(2 * DoF)) {
+      TOperand<T, S> x(a.data()), y(a.data() + DoF);
+      if (op == "assign_tcopy") x.mut() = y.get();
+      else if (op == "assign_tmove") x.mut() = std::move(y.mut());
+      else if (op == "assign_towning") { T o(y.get()); x.mut() = o; }
+      else if (op == "assign_tcoeffs") x.mut() = y.get().coeffs();
+      else return false;
+      rawT(x.raw()); x.mut().setZero(); rawT(x.raw()); rawT(y.raw());
+      return true;
+    }
     return false;
   }
   if (op.compare(0, 4, "blk_") != 0) return false;
@@ -418,6 +455,12 @@ void runS(const Req& r, Resp& R) {
     pushM(out, T::Generator((int)r.ints[0]));
   } else if (op == "innerWeights" && need(0)) {
     pushM(out, T::InnerWeights());
+  } else if (op == "cast" && need(Rep)) {
+    // cast<>() to the other floating-point type (double -> float, float -> double)
+    using Other = typename std::conditional<std::is_same<HX_SC, double>::value, float, double>::type;
+    Operand<G, S> x(a.data());
+    auto y = x.get().template cast<Other>();
+    pushM(out, y.coeffs());
   } else if (op == "make" && need(Rep)) {
     // constructor from raw coefficients: runs the unit-norm assertion when enabled
     Eigen::Matrix<HX_SC, Rep, 1> d;
